@@ -24,6 +24,21 @@ def ok(r, n):
     return isinstance(r, list) and r and r[0] == "ok" and len(r) == n
 
 
+def fault_calls(case):
+    """every fault call of the script in the order the simulation sees it: [(step, via, name, a, b)];
+    via 0 = the Sim handle before the step, via 1 = host code during the step"""
+    out = []
+    for k, st in enumerate(case["steps"]):
+        for act in st["ctl"]:
+            if act[0] != "deliver":
+                out.append((k, 0, act[0], act[1], act[2]))
+        for h in sorted(st.get("hosts", {}), key=int):
+            for cmd in st["hosts"][h]:
+                if cmd[0] == "link":
+                    out.append((k, 1, cmd[1], cmd[2], cmd[3]))
+    return out
+
+
 def c12_oracle(case, obs):
     """The property stated on the implementation's observations alone."""
     out = []
@@ -159,11 +174,11 @@ def c12_oracle(case, obs):
             for m in msgs:
                 if m[1] == "syn":
                     syn_seen[(m[0], m[4], m[5], a, b)] = k
+    calls = fault_calls(case)
     parts = {}
-    for k, st in enumerate(case["steps"]):
-        for act in st["ctl"]:
-            if act[0].startswith("partition"):
-                parts.setdefault((min(act[1], act[2]), max(act[1], act[2])), []).append(k)
+    for (k, via, nm, a, b) in calls:
+        if nm.startswith("partition"):
+            parts.setdefault((min(a, b), max(a, b)), []).append(k)
     for (src, sport, dport, a, b), last in syn_seen.items():
         if last + 1 >= len(obs["post"]) or any(p == last + 1 for p in parts.get((a, b), [])):
             continue
@@ -205,14 +220,19 @@ def c12_oracle(case, obs):
     cut = set()
     cut_at = {}          # step -> set of cut directions after the controller phase of that step
     for k, st in enumerate(case["steps"]):
-        for act in st["ctl"]:
-            a, b = act[1], act[2]
-            if act[0] == "partition":
+        # calls of the Sim handle before step k and of host code in earlier steps (the scripts issue no
+        # connect in a step in which host code partitions or repairs)
+        for (k2, via, nm, a, b) in calls:
+            if not ((via == 0 and k2 == k) or (via == 1 and k2 == k - 1)):
+                continue
+            if nm == "partition":
                 cut |= {(a, b), (b, a)}
-            elif act[0] == "partition_oneway":
+            elif nm == "partition_oneway":
                 cut.add((a, b))
-            elif act[0] in ("hold", "release"):
+            elif nm in ("hold", "release", "repair"):
                 cut -= {(a, b), (b, a)}
+            elif nm == "repair_oneway":
+                cut.discard((a, b))
         cut_at[k] = set(cut)
     for cid, c in conn.items():
         if isinstance(c["dst"], dict):
@@ -225,12 +245,11 @@ def c12_oracle(case, obs):
     # a partition imposed on the SYN's direction while the SYN is still on the link (in flight or
     # parked by a hold) drops it: it must leave the link and the connect must be refused
     part_events = []            # (step, src, dst) directions cut by a controller action of that step
-    for k, st in enumerate(case["steps"]):
-        for act in st["ctl"]:
-            if act[0] == "partition":
-                part_events += [(k, act[1], act[2]), (k, act[2], act[1])]
-            elif act[0] == "partition_oneway":
-                part_events.append((k, act[1], act[2]))
+    for (k, via, nm, a, b) in calls:
+        if nm == "partition":
+            part_events += [(k, a, b), (k, b, a)]
+        elif nm == "partition_oneway":
+            part_events.append((k, a, b))
     for cid, sy in syn_of.items():
         src, sport, dport, a, b, k0 = sy
         c = conn[cid]
@@ -436,13 +455,15 @@ def c12_oracle(case, obs):
         dirty = False
         for k, st in enumerate(case["steps"]):
             for act in st["ctl"]:
-                if act[0] in ("release", "partition", "partition_oneway"):
+                if act[0] in ("release", "partition", "partition_oneway", "repair", "repair_oneway"):
                     dirty = True
                 if act[0] == "deliver":
                     # delivering anything but a SYN may reset an entry
                     for a, b, msgs in (obs["post"][k - 1][0] if k else []):
                         if {a, b} == {act[1], act[2]} and act[3] < len(msgs) and msgs[act[3]][1] != "syn":
                             dirty = True
+            if any(c2[0] == "link" for cmds in st.get("hosts", {}).values() for c2 in cmds):
+                dirty = True
             if k == 0:
                 pairs_held = {(min(a[1], a[2]), max(a[1], a[2])) for a in st["ctl"] if a[0] == "hold"}
                 held_all = len(pairs_held) == n * (n - 1) // 2
@@ -477,6 +498,77 @@ def c12_oracle(case, obs):
                                     % (k, h, obs["post"][k][1][h][1], len(live2[h]), len(pend2[h])), None))
                         dirty = True
                         break
+    # ---- after the last release every connect is decided ---------------------------------------------
+    # The fault calls by their documented meaning: hold parks what is and what will be sent; repair makes
+    # the link healthy "without releasing any held messages"; release makes it healthy and schedules every
+    # parked message; a partition drops what is on the link.  Once every pair that was held has been
+    # released (or fully partitioned) after its last hold and no direction is cut, nothing is parked any
+    # more: requests reach their listener within a step, so a connect cannot hang in front of a listener
+    # whose queue is empty, and no request stays on a link.
+    parked = set()
+    cutd = set()
+    T = -1
+    for (k, via, nm, a, b) in calls:
+        pr = (min(a, b), max(a, b))
+        T = max(T, k)
+        if nm == "hold":
+            parked.add(pr)
+            cutd -= {(a, b), (b, a)}
+        elif nm == "release":
+            parked.discard(pr)
+            cutd -= {(a, b), (b, a)}
+        elif nm == "partition":
+            parked.discard(pr)
+            cutd |= {(a, b), (b, a)}
+        elif nm == "partition_oneway":
+            cutd.add((a, b))
+        elif nm == "repair":
+            cutd -= {(a, b), (b, a)}
+        elif nm == "repair_oneway":
+            cutd.discard((a, b))
+    for k, st in enumerate(case["steps"]):
+        if any(act[0] == "deliver" for act in st["ctl"]):
+            T = max(T, k)
+    if not parked and not cutd and any(c[2] in ("hold", "release") for c in calls):
+        for k in range(T + 2, len(obs["post"])):
+            left = [(a, b, m) for (a, b, msgs) in obs["post"][k][0] for m in msgs if m[1] == "syn"]
+            if left:
+                a, b, m = left[0]
+                out.append(("the connect request of host %d port %d is still parked on the link %d-%d after step %d "
+                            "although the link was released at step %d and is healthy" % (m[0], m[4], a, b, k, T), None))
+                break
+        empty_at = {}          # (host, lid) -> steps >= T + 2 at which an accept found the queue empty
+        for k, st in enumerate(case["steps"]):
+            if k < T + 2:
+                continue
+            for h in range(n):
+                for i, cmd in enumerate(st.get("hosts", {}).get(str(h), [])):
+                    if cmd[0] == "accept" and res.get((k, h, i)) == "pending":
+                        empty_at.setdefault((h, cmd[1]), []).append(k)
+        for cid, c in conn.items():
+            if c["done"] is not None or not c["results"]:
+                continue
+            p, r = c["results"][-1]
+            if r != "pending":
+                continue
+            if isinstance(c["dst"], dict):
+                d = c["dst"].get("h", c["dst"].get("name"))
+            elif c["dst"] == "loop":
+                d = c["host"]
+            else:
+                continue
+            for (h, lid), l in listeners.items():
+                if h != d or l["port"] != c["port"] or l["to"] is not None or l["from"] > c["step"]:
+                    continue
+                if l["kind"] != "unspec" and c["dst"] != "loop":
+                    continue
+                qs = [q for q in empty_at.get((h, lid), []) if c["step"] + 3 <= q < p]
+                if qs:
+                    out.append(("connect %d (host %d, issued at step %d) is neither accepted nor refused: it still pends "
+                                "at step %d although every link is released and healthy since step %d and listener %d "
+                                "of host %d found its queue empty at step %d" % (cid, c["host"], c["step"], p, T, lid, h,
+                                                                                 qs[0]), None))
+                    break
     # ---- accept order (FIFO among connectors that still wait) --------------------------------------
     arrival = {}         # (dst host, dport) -> list of (arrive step, link order, position, src, sport)
     prev = None
@@ -534,7 +626,8 @@ class Spec(PropSpec):
     model_name = "TV.Conn.Model"
     rule = ("scripts = 1-4 connectors on 2-3 hosts (remote, the listener's own host through its address and through "
             "127.0.0.1, by name, v4/v6) racing for one or two listeners (wildcard and localhost binds) with scripted SYN "
-            "delivery order on held links or zero-latency healthy links, accepts, polls, cancels by drop and by "
+            "delivery order on held links or zero-latency healthy links, fault-call sequences (hold, repair, repair_oneway, "
+            "partition, release from the Sim handle and from host code) with SYNs and data parked meanwhile, accepts, polls, cancels by drop and by "
             "tokio::time::timeout before/after SYN delivery, listener drop and re-bind, partitions around the handshake, a "
             "nonce written by each connector and read by its acceptor, stream drops, established_tcp_stream_count and the "
             "verif-hooks table sizes after every step; a case is non-trivial when a connect was accepted or refused; "
@@ -561,7 +654,7 @@ class Spec(PropSpec):
             elif r < 3:
                 cases.append(F.gen_parked_accepts(ctx.rng) if (i // 10) % 2 else F.gen_abandon(ctx.rng))
             elif r < 4:
-                cases.append(F.gen_partition(ctx.rng))
+                cases.append(F.gen_partition(ctx.rng) if (i // 10) % 3 == 0 else F.gen_linkcalls(ctx.rng))
             elif r < 5:
                 cases.append(F.gen_backlog(ctx.rng))
             elif r < 7:
@@ -598,6 +691,7 @@ class Spec(PropSpec):
 
 THEOREMS = ["c12_pairing", "c12_syn_token_unique", "c12_poll_decided", "c12_fifo", "c12_accept_first_alive", "c12_accept_result",
             "c12_refused_unowned", "c12_refused_partitioned", "c12_refused_no_listener", "c12_refused_listener_dropped",
-            "c12_refused_removes_entry", "c12_no_residue", "c12_cancel_removes_entry", "c12_abandon_resets_acceptor", "c12_nonvacuous"]
+            "c12_refused_removes_entry", "c12_no_residue", "c12_cancel_removes_entry", "c12_abandon_resets_acceptor", "c12_nonvacuous",
+            "c12_repair_keeps_parked", "c12_release_unparks", "c12_release_then_tick_empties", "c12_repair_release_example"]
 Spec.theorems = THEOREMS
 SPEC = Spec()
